@@ -70,10 +70,24 @@ type w7Pipe struct {
 	gotErr   error    // first error handed to the reader
 	gotErrEv int64
 	reads    int
+	// yield: every Read is a scheduling point (a read is a system call); used when
+	// several connections live in one run so that their readers interleave at the
+	// granularity of single reads and not only where the feeders cut the streams
+	yield bool
+	// chain: a wake-up is handed on to a possible second goroutine parked in this pipe (see Read)
+	chain bool
 }
 
 func w7NewPipe(w *w7World, seg int) *w7Pipe {
 	return &w7Pipe{w: w, wake: make(chan struct{}, 1), seg: seg}
+}
+
+// signal2 is signal for the hand-on of a wake-up: only in runs with several connections,
+// so that single-connection runs keep the exact schedules of recorded replay files.
+func (p *w7Pipe) signal2() {
+	if p.chain {
+		p.signal()
+	}
 }
 
 func (p *w7Pipe) signal() {
@@ -127,13 +141,18 @@ func w7Tok(s *simrt.Sim) {
 
 func (p *w7Pipe) Read(b []byte) (int, error) {
 	s := p.w.s
-	w7Tok(s)
+	if p.yield {
+		s.Pause()
+	} else {
+		w7Tok(s)
+	}
 	if len(b) == 0 {
 		return 0, nil
 	}
 	p.reads++
 	for {
 		if p.rerr != nil {
+			p.signal2()
 			return p.retErr(p.rerr)
 		}
 		if !p.deadline.IsZero() && !time.Now().Before(p.deadline) {
@@ -163,9 +182,16 @@ func (p *w7Pipe) Read(b []byte) (int, error) {
 			p.got = append(p.got, p.buf[:n]...)
 			p.buf = p.buf[n:]
 			p.marks = append(p.marks, w7Mark{len(p.got), p.w.next()})
+			if len(p.buf) > 0 {
+				// hand the wake-up on: a correct reader has one goroutine per connection, but a
+				// broken one (two connections sharing an inflater) may have two goroutines parked
+				// in the same pipe, and the run must still end with a verdict instead of a hang
+				p.signal2()
+			}
 			return n, nil
 		}
 		if p.eof {
+			p.signal2()
 			return p.retErr(io.EOF)
 		}
 		// block durably (channel and timer were created inside the bubble)
@@ -384,6 +410,17 @@ type w7Frame struct {
 func w7GenBytes(n, seed, kind int) []byte {
 	out := make([]byte, n)
 	x := uint64(seed)*0x9e3779b97f4a7c15 + 0x1234567
+	if seed >= 1000 {
+		// connections that share a run draw their seeds from disjoint ranges starting at
+		// multiples of 1000 and rely on payloads of different seeds having no long stretch in
+		// common. The plain stream of seed s+1 is the stream of seed s shifted by one step,
+		// so the start state is scrambled first (small seeds keep the historical streams:
+		// recorded replay files stay valid).
+		z := uint64(seed) + 0x632be59bd9b4e019
+		z = (z ^ (z >> 30)) * 0xbf58476d1ce4e5b9
+		z = (z ^ (z >> 27)) * 0x94d049bb133111eb
+		x = z ^ (z >> 31)
+	}
 	nx := func() uint64 {
 		x += 0x9e3779b97f4a7c15
 		z := x
@@ -407,7 +444,12 @@ func w7GenBytes(n, seed, kind int) []byte {
 			out[i] = 'a' + byte((x>>(uint(i%8)*8))%26)
 		}
 	case 2:
-		pat := []byte(fmt.Sprintf("{\"k%d\":\"value-%d\"},", seed%7, seed%13))
+		// seeds >= 1000 (connections that share a run): the whole seed is part of the pattern
+		v := seed % 13
+		if seed >= 1000 {
+			v = seed
+		}
+		pat := []byte(fmt.Sprintf("{\"k%d\":\"value-%d\"},", seed%7, v))
 		for i := range out {
 			out[i] = pat[i%len(pat)]
 		}
@@ -561,6 +603,15 @@ type w7Term struct {
 	// EarlyEnd: the compressed message in progress already contains a complete deflate
 	// stream (a BFINAL block) although its final fragment has not arrived.
 	EarlyEnd bool
+	// Present: for a read-limit verdict, the number of payload bytes of the offending
+	// message that are physically present in the stream (earlier fragments plus what
+	// there is of the offending frame).
+	Present uint64
+	// Unbounded: no read limit is configured, but the fragments announced so far add up
+	// to 2^63 bytes or more. The stream cannot contain such a message, so the verdict is
+	// "more"; giving up with "too big" is accepted as an alternative and nothing is
+	// demanded about a close frame.
+	Unbounded bool
 }
 
 func (t *w7Term) alt(k string) {
@@ -789,6 +840,35 @@ func w7RefDecode(stream []byte, cfg w7RefCfg) *w7Ref {
 			cum := msgLen + length // msgLen is 0 outside a message
 			return msb || cum < length || cum > uint64(cfg.ReadLimit)
 		}
+		// payload bytes of the current message that are present in the stream, this frame included
+		present := func() uint64 {
+			n := msgLen
+			if avail > full {
+				have := uint64(avail - full)
+				if have > length {
+					have = length
+				}
+				n += have
+			}
+			return n
+		}
+		// the limit verdict: a decoder that looks at the announced length reports it at the
+		// header; one that counts payload bytes as they arrive reports it at the latest when
+		// more than the limit has arrived. An i/o error instead of the verdict is therefore
+		// conforming only while the frame is incomplete AND no more than the limit is present.
+		limitTerm := func() w7Term {
+			t := w7Term{Kind: "toobig", Reason: "message payload exceeds the read limit", Off: start, End: frameEnd, Present: present()}
+			if !msb && msgLen+length >= 1<<63 {
+				// every frame length is legal (below 2^63) but their sum is not representable
+				// in 63 bits: a distinct reason, because an implementation that adds the
+				// announced lengths in a signed 64-bit counter is at risk exactly here
+				t.Reason = "fragment lengths of the message add up to 2^63 or more"
+			}
+			if !complete && t.Present <= uint64(cfg.ReadLimit) {
+				t.alt("io")
+			}
+			return t
+		}
 
 		if len(reasons) > 0 {
 			t := w7Term{Kind: "proto", Reason: strings.Join(reasons, " + "), Off: start, End: frameEnd}
@@ -828,15 +908,16 @@ func w7RefDecode(stream []byte, cfg w7RefCfg) *w7Ref {
 			r.NonMinimal = true
 		}
 		if overLimit() {
-			t := w7Term{Kind: "toobig", Reason: "message payload exceeds the read limit", Off: start, End: frameEnd}
-			if !complete {
-				t.alt("io")
-			}
+			t := limitTerm()
 			partialAlts(&t, nil)
 			return finish(t)
 		}
 		if !complete {
 			t := w7Term{Kind: "more", Off: start, End: -1}
+			if isData && cfg.ReadLimit <= 0 && msgLen+length >= 1<<63 {
+				t.Unbounded = true
+				t.alt("toobig")
+			}
 			if isData && avail >= full && !inMsg {
 				t.InMsg, t.MsgOff = true, start
 			}
